@@ -305,13 +305,57 @@ def fmt_template(e):
         if b < 0x80:
             pieces.append(tpl[i + 1:i + 1 + b].decode("utf-8", "replace"))
             i += 1 + b
-        elif b == 0xc0:
-            pieces.append(("arg", argi, kinds[argi] if argi < len(kinds) else None))
-            argi += 1
+        elif b == 0x80:
+            n = tpl[i + 1] | (tpl[i + 2] << 8)
+            pieces.append(tpl[i + 3:i + 3 + n].decode("utf-8", "replace"))
+            i += 3 + n
+        elif b & 0xc0 == 0xc0:
             i += 1
+            opts = {}
+            if b & 1:
+                flags = int.from_bytes(tpl[i:i + 4], "little")
+                i += 4
+                opts["fill"] = chr(flags & 0x1fffff)
+                opts["zero_pad"] = bool(flags >> 24 & 1)
+                opts["alternate"] = bool(flags >> 23 & 1)
+                opts["has_width"] = bool(flags >> 27 & 1)
+                opts["has_precision"] = bool(flags >> 28 & 1)
+            if b & 2:
+                opts["width"] = tpl[i] | (tpl[i + 1] << 8)
+                opts["width_indirect"] = bool(b & 0x10)
+                i += 2
+            if b & 4:
+                opts["precision"] = tpl[i] | (tpl[i + 1] << 8)
+                opts["precision_indirect"] = bool(b & 0x20)
+                i += 2
+            pos = argi
+            if b & 8:
+                pos = tpl[i] | (tpl[i + 1] << 8)
+                i += 2
+            kind = kinds[pos] if pos < len(kinds) else None
+            if opts:
+                pieces.append(("arg", pos, kind, opts))
+            else:
+                pieces.append(("arg", pos, kind))
+            argi = pos + 1
         else:
-            raise Unrecognised(f"format_args template opcode {b:#x} (non-default formatting options)")
+            raise Unrecognised(f"format_args template opcode {b:#x}")
     return pieces, args
+
+
+def is_fmt_block(x):
+    """The lowered `format_args!` block itself (not an enclosing block)."""
+    if not (isinstance(x, dict) and x.get("k") == "block" and len(x.get("stmts", [])) == 2 and "expr" in x):
+        return False
+    e = x["expr"]
+    if not (isinstance(e, dict) and e.get("k") == "block" and "unsafe" in e):
+        return False
+    inner = simp(e.get("expr"))
+    return is_call(inner, "Arguments::<'a>::new")
+
+
+def fmt_blocks(root):
+    return [x for x in walk(root) if is_fmt_block(x)]
 
 
 def const_fold(e, consts=None):
